@@ -13,6 +13,7 @@ import Midi.Driver.Ctors
 import Midi.Driver.Nums
 import Midi.Driver.Scan
 import Midi.Driver.Poll
+import Midi.Driver.Serde
 open Midi Midi.Driver
 
 structure St where
@@ -128,7 +129,11 @@ def step (st : St) (line : String) : St × List String :=
   | [reqS, implS] =>
     let req := reqS.splitOn " " |>.filter (· ≠ "")
     let implWs := implS.splitOn " " |>.filter (· ≠ "")
-    match parseCells implWs, evalReq (st.scan, st.poll) req with
+    let evalAll (impl? : Option Obs) : Option ((ScanSt × PollSt) × Obs × Option Obs) :=
+      match req, impl? with
+      | "de" :: rest, some impl => (modelDe rest).map (fun m => ((st.scan, st.poll), m, (specDe rest impl).orElse (fun _ => some m)))
+      | _, _ => evalReq (st.scan, st.poll) req
+    match parseCells implWs, evalAll (parseCells implWs) with
     | some impl, some ((scan', poll'), model, spec?) =>
       -- trace monitors run on what the IMPLEMENTATION returned (the monitor's clock is the one before this request)
       let (poll'', monFails) := match req with
